@@ -147,9 +147,19 @@ func verifHosts(l *roundRobinLoadBalancer) []*Host { return l.hosts.Load().([]*H
 
 // ConnectSession as seen by its callers: network activity and fresh objects only; the session it
 // returns carries exactly the configuration it was asked for (C07).
+// Only errors are sent on a session's failure channel (checked at the sends, assumed at the receive).
+//@ type proxycore.Session
+//@   chan failed: v != nil
+
+//@ func proxycore.Cluster.Listen [C07]
+//@   requires c != nil
+//@   modifies nothing
+
 //@ func proxycore.ConnectSession [C07]
-//@   trusted
-//@   ensures result1 == nil ==> result0 != nil && fresh(result0) && result0.config.Version == config.Version && result0.config.Keyspace == config.Keyspace && result0.config.Compression == config.Compression
+//@   local $ctxDoneSeen bool = false
+//@   requires cluster != nil
+//@   after select#1 set $ctxDoneSeen = (selidx == 0)
+//@   ensures result1 == nil ==> result0 != nil && fresh(result0) && result0.config.Version == config.Version && result0.config.Keyspace == config.Keyspace && result0.config.Compression == config.Compression && result0.config.ReconnectPolicy == config.ReconnectPolicy && result0.config.NumConns == config.NumConns
 //@   modifies nothing
 
 // ---------------------------------------------------------------------------------------------
